@@ -1,15 +1,15 @@
 CONSTANTS
-  NArb = 2
+  NArb = 1
   Thr = {t1}
   PreCreated = 1
-  Kinds = {"spawn"}
-  TaskStop = TRUE
+  Kinds = {"spawn", "spawn_fn"}
+  TaskStop = FALSE
   AtomicCalls = TRUE
   EagerJoin = TRUE
-  MaxCmds = 3
-  MaxSys = 2
-  Codes <- CodesWithNeg
-  AllowBusy = FALSE
+  MaxCmds = 4
+  MaxSys = 1
+  Codes = {0}
+  AllowBusy = TRUE
   FifoLocalQueue = TRUE
   StopEndsLoop = TRUE
   FirstCodeKept = TRUE
@@ -25,13 +25,13 @@ CONSTANTS
   BlockOnExact = TRUE
   SelfSend = FALSE
   SelfSendViaChannel = TRUE
-  NegCodeIsErr = FALSE
+  NegCodeIsErr = TRUE
   CtrlBatch = 0
   StartIdle = FALSE
   EveryExitStops = TRUE
-  RxDropAtLoopEnd = TRUE
+  RxDropAtLoopEnd = FALSE
 SPECIFICATION Spec
 VIEW View
 SYMMETRY ThrSym
-INVARIANTS C09_FirstCodeWins C09_AllRegisteredStop C09_RunErrOnNonZero C09_EarlyStoppedDeregistered
+INVARIANTS TypeOK C10_StartOrderRespectsSendOrder C10_AtMostOnce C10_OnOwnThread C10_NothingAfterStop C10_SpawnFalseWhenGone C10_JoinAfterLoopEnd C10_BlockOnOutput
 CHECK_DEADLOCK FALSE
